@@ -163,6 +163,34 @@ pub fn check_case(ci: usize, case: &Value, targets: &[String], max_perms: usize)
                 }
             }
         }
+        // a second pass over the first order of every third configuration, levels outermost, with every target copied
+        // into one reused buffer: what a record is routed by is the text of its target, not where that text lives,
+        // and not what the call before it was turned away for (Routing.tla: Route is a function of the target)
+        if pi == 0 && ci % 3 == 0 && out.is_empty() {
+            let mut buf = String::with_capacity(64);
+            'again: for l in 1..=5i64 {
+                for (ti, t) in targets.iter().enumerate() {
+                    let (thr, exp) = classes[idx[ti]];
+                    buf.clear();
+                    buf.push_str(t);
+                    for c in &built.counters {
+                        c.n.store(0, Ordering::Relaxed);
+                    }
+                    let r = catch(|| built.logger.log(&log::Record::builder().target(&buf).level(level(l)).module_path(Some(decoy)).args(format_args!("m")).build()));
+                    if let Err(p) = r {
+                        out.push(json!({"what": "log-panic", "target": t, "level": l, "error": p, "order": lperm}));
+                        break 'again;
+                    }
+                    let got: Vec<usize> = built.counters.iter().map(|c| c.n.load(Ordering::Relaxed)).collect();
+                    let want: Vec<usize> = if thr >= l { exp.to_vec() } else { vec![0, 0, 0] };
+                    if got != want {
+                        out.push(json!({"what": "deliveries (targets in a reused buffer, level by level)", "target": t, "level": l, "expected": want,
+                                        "actual": got, "order": lperm}));
+                        break 'again;
+                    }
+                }
+            }
+        }
     }
     out
 }
